@@ -257,6 +257,10 @@ fn oracle_stream(spec: &str, sched: &str, ops: &str, file: &[u8], ann: &str) -> 
             if w.contains("notes=") && sw == "ok" && sg == "ok" {
                 fails.push(format!("C14: `{}`: notes through the stream parser differ from the notes of the same bytes: stream `{}` slice `{}`", q, &g[..g.len().min(160)], &w[..w.len().min(160)]));
             }
+            // …and string tables handed out through the stream parser (strtab views, T, the tables linked to Y/D) are C15's
+            if (w.starts_with("strtab=") || kind == 'T') && sw == "ok" && sg == "ok" {
+                fails.push(format!("C15: `{}`: a string table through the stream parser differs from the table of the same bytes: stream `{}` slice `{}`", q, &g[..g.len().min(160)], &w[..w.len().min(160)]));
+            }
             let data_piece = w.starts_with("data=");
             if sw == "ok" && sg == "ok" {
                 fails.push(format!("{}: `{}`: both succeed with different content: stream `{}` slice `{}`", tag, q, &g[..g.len().min(160)], &w[..w.len().min(160)]));
